@@ -28,7 +28,7 @@ static void ser_a(int idx) {
 int main(int argc, char **argv) {
     return run(argc, argv, [&](const std::vector<std::string> &t) {
         if (t[0] == "R") { Ev e("Reset"); e.end(); return; }
-        rng.seed((unsigned)num(t[3]));
+        rng.seed((unsigned)num(t[3])); g_big = t.size() > 4 && t[4] == "big" ? (int)(1 + num(t[3]) % 2) : 0;
         if (t[1] == "A") ser_a(num(t[2])); else ser_b(num(t[2]));
     });
 }
